@@ -100,7 +100,7 @@ pub fn assemble(code: &[Value]) -> Vec<u8> {
             "ENDF" => out.push(0x2D),
             "CALL" => out.push(0x2B),
             "LOOPCALL" => out.push(0x2A),
-            "A1" | "A2" | "P0" | "P1" | "P2" | "P3" | "P5" => out.push(arg as u8),
+            "A1" | "A2" | "G0" | "P0" | "P1" | "P2" | "P3" | "P5" => out.push(arg as u8),
             "DELTAC" => out.push(0x73),
             "SLOOP" => out.push(0x17),
             "FLIPPT" => out.push(0x80),
@@ -152,10 +152,14 @@ const KINDS: [&str; 17] = ["DivideByZero", "InvalidCvtIndex", "NegativeLoopCount
 
 /// (pedantic outcome class, non-pedantic outcome class)
 pub fn run_program(font: &[u8]) -> Result<(String, String), String> {
+    run_program_at(font, 16.0)
+}
+
+pub fn run_program_at(font: &[u8], size: f32) -> Result<(String, String), String> {
     guarded(|| {
         let f = FontRef::new(font).map_err(|e| format!("font: {e}"))?;
         let outlines = f.outline_glyphs();
-        let inst = HintingInstance::new(&outlines, Size::new(16.0), LocationRef::default(), HintingOptions { engine: Engine::Interpreter, target: Target::Mono }).map_err(|e| format!("instance: {e}"))?;
+        let inst = HintingInstance::new(&outlines, Size::new(size), LocationRef::default(), HintingOptions { engine: Engine::Interpreter, target: Target::Mono }).map_err(|e| format!("instance: {e}"))?;
         let g = outlines.get(GlyphId::new(1)).ok_or("no glyph 1")?;
         let class = |pedantic: bool| -> String {
             let t = std::time::Instant::now();
@@ -177,6 +181,12 @@ pub fn run_program(font: &[u8]) -> Result<(String, String), String> {
 }
 
 pub fn replay(path: &str, ev: &mut Vec<Value>, rep: &mut Report) {
+    replay_sizes(path, false, ev, rep)
+}
+
+/// `huge`: every program is also run at a size of 4e7 pixels per em (the size is a caller-supplied f32: the scale and the
+/// values MPPEM / MPS push are then at the edge of 32 bits); only "returns a value" is judged for that run
+pub fn replay_sizes(path: &str, huge: bool, ev: &mut Vec<Value>, rep: &mut Report) {
     let t0 = std::time::Instant::now();
     fvcore::tlc_stream(path, &["PROG"], |_, c| {
         rep.evaluations += 1;
@@ -185,6 +195,12 @@ pub fn replay(path: &str, ev: &mut Vec<Value>, rep: &mut Report) {
         let font = build_font(&funcs, &glyph);
         let case = json!({"kind": "vm-case", "funcs": funcs, "glyph": glyph, "model": c["outcome"]});
         let t = std::time::Instant::now();
+        if huge {
+            if let Err(p) = run_program_at(&font, 4.0e7) {
+                rep.violation(&format!("hinting a model program at 4e7 ppem did not return a value: {p}"), case.clone());
+            }
+            rep.add("runs_at_huge_size", 1);
+        }
         match run_program(&font) {
             Err(p) => rep.violation(&format!("hinting a model program did not return a value: {p}"), case),
             Ok((ped, lax)) => {
